@@ -913,8 +913,41 @@ def build(tier):
     fns += f2
     return {
         'targets': result_targets() + tuner_targets() + optimize_targets() + local_search_targets(), 'vcs': vcs, 'functions': fns,
-        'decided': [],
-        'not_decided': [],
-        'assumptions': [],
-        'trusted': [],
+        'decided': [
+            'evaluate(): for an arbitrary grid point G -- the callback is asked to evaluate G exactly when G is a candidate that is not yet among the steps (never twice, only candidates); '
+            'a non-finite value is rejected with an exception, and only then, and is never stored; on return steps = old steps + one step per evaluated point holding the callback value, '
+            'duplicate-free, all values finite, sorted by value (std::sort on the whole range, last); returns true iff something new was evaluated',
+            'tuner_t::optimize() + local_search_tuner_t::do_optimize(): no grid point is evaluated twice over the whole optimisation; returned steps == evaluations; '
+            'at most max_evals - 1 + 3^d points are evaluated; no parameter space => exception; both refinement loops terminate; radius *= 2 cannot overflow',
+            'local_search(): every candidate lies in [min, max] coefficient-wise, is src + radius * {-1,0,1}, equals src beyond the grid extent; at most 3^d candidates',
+            'make_min/max/avg_igrid(): coefficient c is position 0 / size_c - 1 / size_c / 2 of space c; map_to_grid(): cell (candidate, space) is the igrid(space)-th value of that space, index in range',
+            'ml::result_t: store/stats address cell(trial, fold, split, value), store/extra/log_path address slot(trial, fold) = trial * folds + fold, in range, no overflow; '
+            'add() creates folds * (old + new) slots, preserves old rows, new statistics NaN; value() = mean over folds of the stored mean; '
+            'optimum_trial()/closest_trial() return the least index attaining the minimum (NaN never wins), optimum compares value(trial, valid, errors)',
+            'ml::tune lambdas: (trial, fold) = (index div folds, index mod folds) is in range and inverts slot; the model callback is called once per task with splits[fold], '
+            'new_params.tensor(trial), and its results are stored under (old_trials + trial, fold); add() precedes map(folds * new_trials); the tuner gets the values of exactly the new trials',
+            'slot lemmas: injective, onto [0, folds * trials), decoding inverts encoding',
+        ],
+        'not_decided': [
+            'surrogate tuner (quadratic fit, closest_grid_point_from_surrogate); its do_optimize is only covered by the contract optimize() assumes for the virtual call',
+            'thread interleavings of the (trial, fold) tasks (C17); distinct tasks write distinct slots/cells by the slot lemma + C16 index injectivity',
+            'the body of ml::tune outside its two lambdas (folds = splits.size(), result_t constructor) and the result_t constructor',
+            'the value of the optimum when a mean validation error is +inf and another is exactly DBL_MAX (optimum_trial starts from DBL_MAX: such trials never win)',
+            'combinatorial_iterator_t (assumed contract: each combination once), Eigen coefficient-wise operators and minCoeff, std::sort / remove_if / find_if / erase (assumed contracts)',
+        ],
+        'assumptions': [
+            'std::remove_if returns the end of the kept elements (those not satisfying the predicate, order preserved) and leaves the tail valid but unspecified; std::find_if returns last iff no element satisfies the predicate; '
+            'vector::erase(first, last) removes that range; std::sort sorts a range under a strict weak ordering (no NaN) and permutes it -- each stated for the ghost grid point, with the REAL predicates (extracted lambdas)',
+            'operator== on index vectors is equality of contents (grid-point identity)',
+            'user tuner callback returns one value per parameter row (values.size() == params.size<0>())',
+            'candidate lists passed to evaluate() are duplicate-free: {avg_igrid}, or local_search output (offsets enumerated once each by combinatorial_iterator_t + offsets lemma, radius >= 1)',
+            'combinatorial_iterator_t{dims} enumerates prod(dims) combinations x with 0 <= x[i] < dims[i]; Eigen array +,-,* act coefficient-wise; minCoeff() <= every coefficient',
+            'local_search contract used by optimize()/do_optimize() at grid-point level is the coefficient-level contract proved for every coefficient (ghost-index lifting)',
+            'tuner::max_evals in its registered domain [10, 1000]; grid sizes and 3^d at most 10^6; every parameter space has >= 1 value',
+            'ml::result_t class invariant (established by the constructor): m_values dims (T, F, 2, 2, 12), m_params (T, P), m_extras/m_log_paths hold F*T elements; C16 tensor bound 48*T*F <= 2^62',
+            'ml::tune: folds == splits.size() == result.folds(); parallel::pool_t::map(n, op) calls op with every index in [0, n) exactly once (C17); the model callback returns tensors with 2 rows (errors, losses)',
+            'at least one fold (value() divides by folds()); double treated as Real in result_t::value only',
+            'store()/stats()/extra()/closest_trial() preconditions are the asserts of the functions (compiled out under NDEBUG); discharged at the call sites in ml::tune',
+        ],
+        'trusted': ['Eigen lpNorm<2>() of a difference is a function of its operands', 'std::any move assignment', 'std::vector::emplace_back grows the size by one'],
     }
